@@ -10,11 +10,15 @@ import re
 
 import common
 
-BASES = ["int", "long", "uint", "ulong", "llong", "longint", "unsigned", "double", "float", "char", "bool",
+BASES = ["int", "long", "uint", "ulong", "llong", "longint", "unsigned", "short", "shortint", "ushort", "ushortint", "ulongint",
+         "llongint", "ullong", "ullongint", "double", "float", "char", "bool",
          "size_t", "string", "vecint", "vecdouble", "cls", "nscls"]
 BASE_TOK = {
     "int": ["int"], "long": ["long"], "uint": ["unsigned", "int"], "ulong": ["unsigned", "long"],
     "llong": ["long", "long"], "longint": ["long", "int"], "unsigned": ["unsigned"],
+    "short": ["short"], "shortint": ["short", "int"], "ushort": ["unsigned", "short"], "ushortint": ["unsigned", "short", "int"],
+    "ulongint": ["unsigned", "long", "int"], "llongint": ["long", "long", "int"], "ullong": ["unsigned", "long", "long"],
+    "ullongint": ["unsigned", "long", "long", "int"],
     "double": ["double"], "float": ["float"], "char": ["char"], "bool": ["bool"], "void": ["void"],
     "size_t": ["size_t"], "string": ["std", "::", "string"],
     "vecint": ["std", "::", "vector", "<", "int", ">"], "vecdouble": ["std", "::", "vector", "<", "double", ">"],
@@ -132,6 +136,7 @@ def proj(node):
         "storage": list(node.storage),
         "spec": list(node.specifier),
         "tmpl": [" ".join(t.specifier) for t in node.template_arguments],
+        "type": node.typemap.name if node.typemap is not None else "",
         "hasdecl": d is not None,
         "ptrs": ptrs(d),
         "name": (d.name or "") if d is not None else "",
